@@ -18,6 +18,9 @@
     14  the same on an encoding with one corrupted type byte                                (oracle)
     15  FastRead panicked on a truncated encoding and the model does not say why            (oracle)
     16  the same on an encoding with one corrupted type byte / an encoding with extra fields (oracle)
+    17  the driver process died (Go runtime: out of memory) in FastRead where the model answers with an
+        error: the generated code allocates make(T, size) with a size taken from the input before it looks
+        at the bytes that follow                                                              (oracle)
     10  FastRead accepted a proper prefix of an encoding of the struct's own value         (oracle)
     11  FastWrite wrote something else than FastAppend                                     (oracle)
     12  FastAppend / BLength / FastWrite panicked                                          (oracle)   *)
@@ -73,7 +76,7 @@ Definition cmp_read (m : mobs) (c : fobs) (off : Z) (dump : value) : list N :=
   | MOk v n => match c with
                | FOOk => if veq_mod v dump && (n =? off) then [] else [1%N]
                | _ => [1%N] end
-  | MErr x => if fobs_eqb x c then [] else [1%N]
+  | MErr x => match c with FOCrash => [] | _ => if fobs_eqb x c then [] else [1%N] end
   | MPanic _ => match c with FOPanic => [] | _ => [1%N] end
   | MFuel => [9%N]
   | MDomain => [8%N]
@@ -82,10 +85,11 @@ Definition cmp_read (m : mobs) (c : fobs) (off : Z) (dump : value) : list N :=
 (* the oracle "no panic": code by situation (truncated / other) and by the cause the model gives *)
 Definition panic_codes (truncated : bool) (m : mobs) (c : fobs) : list N :=
   if fobs_bad c then
-    match m with
-    | MPanic false => [if truncated then 6%N else 7%N]
-    | MPanic true => [if truncated then 13%N else 14%N]
-    | _ => [if truncated then 15%N else 16%N]
+    match m, c with
+    | MErr _, FOCrash => [17%N]
+    | MPanic false, FOPanic => [if truncated then 6%N else 7%N]
+    | MPanic true, FOPanic => [if truncated then 13%N else 14%N]
+    | _, _ => [if truncated then 15%N else 16%N]
     end
   else [].
 
@@ -112,7 +116,7 @@ Fixpoint trunc_checks (e : env) (s : sschema) (own : bool) (input : bytes) (i : 
       (let m := model_read e s (new_struct e s) (firstn i input) in
        (match m with
         | MOk _ _ => match o with FOOk => [] | _ => [1%N] end
-        | MErr x => if fobs_eqb x o then [] else [1%N]
+        | MErr x => match o with FOCrash => [] | _ => if fobs_eqb x o then [] else [1%N] end
         | MPanic _ => match o with FOPanic => [] | _ => [1%N] end
         | MFuel => [9%N]
         | MDomain => [8%N]
